@@ -28,6 +28,7 @@ Inductive err :=
 | E_assert (span : str) | E_unwrap_nil (span : str) | E_div_zero | E_invalid_op | E_not_bool
 | E_load_before_store (n : str) | E_goto_range | E_stack_shape (o : N) | E_bad_arg (o : N)
 | E_not_callable | E_no_function (n : str) | E_cb (n : str) | E_unsupported (o : N)
+| E_overflow (o : N)                                        (* integer overflow: a Rust panic in a debug build *)
 | E_arity                                                   (* instrumentation only: see run_fn_gen *)
 | E_panic (o : N).                                          (* a Rust panic, not an anyhow error *)
 
@@ -169,7 +170,7 @@ Definition op_le : str := [60; 61]%N. Definition op_eq : str := [61]%N.
 Definition op_and : str := [38; 38]%N. Definition op_or : str := [124; 124]%N.
 Definition op_xor : str := [94]%N.
 
-Definition arith (o : N) (r : Z) : ores := if i32_ok r then OV (VInt r) else OE (E_panic o).
+Definition arith (o : N) (r : Z) : ores := if i32_ok r then OV (VInt r) else OE (E_overflow o).
 
 Definition bin_op_sem (sym : str) (l r : value) : ores :=
   match l, r with
@@ -384,7 +385,7 @@ Definition exec_d (d : dinstr) (a : act) (g : gstate) : sres :=
     | None => SFail (E_stack_shape OP_BIN_OP) end
   | DNeg =>
     match unsnoc ops with
-    | Some (r, VInt z) => if i32_ok (- z) then SNext (set_ops a (r ++ [VInt (- z)])) g else SFail (E_panic OP_NEG)
+    | Some (r, VInt z) => if i32_ok (- z) then SNext (set_ops a (r ++ [VInt (- z)])) g else SFail (E_overflow OP_NEG)
     | Some _ => SFail E_invalid_op
     | None => SFail (E_panic OP_NEG) end
   | DNot =>
